@@ -27,12 +27,12 @@ class C03(ContCheck):
 
     def gen(self, tier, rng):
         cases = []
-        nrand = 2500 if tier == 'quick' else 60000
+        nrand = 6000 if tier == 'quick' else 100000
         for _ in range(nrand):
             cases += all_classes('map', contlib.map_history(rng))
         for _ in range(nrand // 10):
             cases += all_classes('map', contlib.map_history(rng, keys=['a', 'b', 'c', 'd', 'e', 'f', 'g', 'h']))
-        depth = 3 if tier == 'quick' else 5
+        depth = 4 if tier == 'quick' else 5
         ex = contlib.map_exhaustive(depth)
         self.exhaustive_note = 'all %d sequences of %d operations from %s, on three classes' % (len(ex), depth, contlib.MAP_SYMBOLS)
         for ops in ex:
